@@ -83,21 +83,21 @@ func (w *c16Wallet) DeriveNextKey(context.Context, int32) (*keychain.KeyDescript
 
 // c16Keys holds everything that is fixed for a harness run.
 type c16Keys struct {
-	signer    *c16Signer
-	provPriv  *btcec.PrivateKey
-	provPub   *btcec.PublicKey
-	provLoc   keychain.KeyLocator
-	nodePub   *btcec.PublicKey
-	msPub     *btcec.PublicKey
-	baseID    [8]byte
-	otherID   [8]byte
-	bidNonce  order.Nonce
-	otherNon  [32]byte
-	acct      *account.Account
-	terms     *terms.AuctioneerTerms
-	offered   []byte // serialized offered ticket (id 0), order nonce set
-	capacity  btcutil.Amount
-	badSig    *ecdsa.Signature
+	signer   *c16Signer
+	provPriv *btcec.PrivateKey
+	provPub  *btcec.PublicKey
+	provLoc  keychain.KeyLocator
+	nodePub  *btcec.PublicKey
+	msPub    *btcec.PublicKey
+	baseID   [8]byte
+	otherID  [8]byte
+	bidNonce order.Nonce
+	otherNon [32]byte
+	acct     *account.Account
+	terms    *terms.AuctioneerTerms
+	offered  []byte // serialized offered ticket (id 0), order nonce set
+	capacity btcutil.Amount
+	badSig   *ecdsa.Signature
 }
 
 func newC16Keys() *c16Keys {
@@ -307,12 +307,13 @@ type c16Gen struct {
 }
 
 type c16Side struct {
-	w    *c16World
-	prov bool
-	db   *clientdb.DB
-	neg  *pool.SidecarNegotiator
-	gen  *c16Gen
-	afterErr int32
+	w          *c16World
+	prov       bool
+	db         *clientdb.DB
+	neg        *pool.SidecarNegotiator
+	gen        *c16Gen
+	registered bool // entry in SidecarAcceptor.negotiators
+	afterErr   int32
 	// scripted answers (single-step tests); nil = the real driver
 	script *c16Script
 }
@@ -385,7 +386,7 @@ func (s *c16Side) ValidateOrderedTicket(t *sidecar.Ticket) error {
 		err = errors.New("scripted validate failure")
 	default:
 		// the real thing: real signer, real store
-		err = pool.VerifValidateOrderedTicket(context.Background(), t, s.w.k.signer, s.db)
+		err = pool.VerifC16ValidateOrderedTicket(context.Background(), t, s.w.k.signer, s.db)
 	}
 	s.eff("val:" + tk + ":" + b01(err == nil))
 	return err
@@ -410,19 +411,19 @@ func (s *c16Side) ExpectChannel(_ context.Context, t *sidecar.Ticket) error {
 		}
 		pend := s.w.pendingR
 		if s.script != nil {
-			pend = map[[32]byte]bool{}
+			pend = map[[32]byte]*sidecar.Ticket{}
 			if s.script.expect == "realP" {
-				pend[s.w.k.bidNonce] = true
+				pend[s.w.k.bidNonce] = t
 			}
 		}
-		if pend[t.Order.BidNonce] {
+		if _, ok := pend[t.Order.BidNonce]; ok {
 			return fmt.Errorf("sidecar with order nonce is already registered")
 		}
 		t.State = sidecar.StateExpectingChannel
 		if err := s.db.UpdateSidecar(t); err != nil {
 			return fmt.Errorf("error updating sidecar: %v", err)
 		}
-		pend[t.Order.BidNonce] = true
+		pend[t.Order.BidNonce] = t
 		return nil
 	}()
 	s.eff("exp:" + s.w.k.tok(t) + ":" + b01(err == nil))
@@ -609,7 +610,7 @@ type c16World struct {
 	mu  sync.Mutex
 
 	p, rc    *c16Side
-	pendingR map[[32]byte]bool
+	pendingR map[[32]byte]*sidecar.Ticket
 	bids     int
 	toP, toR [][]byte
 	effs     []string
@@ -666,9 +667,9 @@ func (w *c16World) storedOrderDB() *clientdb.DB {
 }
 
 func newC16World(r *Run, k *c16Keys) *c16World {
-	w := &c16World{r: r, k: k, dir: c16Tmp, pendingR: map[[32]byte]bool{},
-		writes: map[string][]uint8{},
-		inCh:   map[string]chan c16Msg{"0": make(chan c16Msg), "1": make(chan c16Msg)},
+	w := &c16World{r: r, k: k, dir: c16Tmp, pendingR: map[[32]byte]*sidecar.Ticket{},
+		writes:  map[string][]uint8{},
+		inCh:    map[string]chan c16Msg{"0": make(chan c16Msg), "1": make(chan c16Msg)},
 		waiting: map[string]*int32{"0": new(int32), "1": new(int32)}}
 	w.p = &c16Side{w: w, prov: true}
 	w.rc = &c16Side{w: w, prov: false}
@@ -738,9 +739,10 @@ func c16Goroutines() []c16G {
 }
 
 const (
-	c16ProvMain = "github.com/lightninglabs/pool.(*SidecarNegotiator).autoSidecarProvider("
-	c16RecvMain = "github.com/lightninglabs/pool.(*SidecarNegotiator).autoSidecarReceiver("
-	c16TExec    = "github.com/lightninglabs/pool.(*SidecarNegotiator).TicketExecuted("
+	c16ProvMain   = "github.com/lightninglabs/pool.(*SidecarNegotiator).autoSidecarProvider("
+	c16RecvMain   = "github.com/lightninglabs/pool.(*SidecarNegotiator).autoSidecarReceiver("
+	c16TExec      = "github.com/lightninglabs/pool.(*SidecarNegotiator).TicketExecuted("
+	c16StepPrefix = "github.com/lightninglabs/pool.(*SidecarNegotiator).stateStep"
 )
 
 // parked reports whether the main loop of the side is parked in its select
@@ -753,7 +755,10 @@ func (w *c16World) parked(prov bool) (quiet, alive bool) {
 	}
 	quiet = true
 	for _, g := range c16Goroutines() {
-		if strings.Contains(g.body, c16TExec) && !strings.Contains(g.body, "main.(*c16World)") {
+		if (strings.Contains(g.body, c16TExec) && !strings.Contains(g.body, "main.(*c16World)")) ||
+			strings.Contains(g.body, "created by "+c16StepPrefix) {
+			// (a goroutine spawned by a step function that has not run yet
+			// still shows only its go-wrapper frame)
 			// an internally spawned TicketExecuted (the harness's own
 			// synchronous calls are excluded)
 			quiet = false
@@ -829,6 +834,7 @@ func (w *c16World) startNegotiator(prov bool, first bool) {
 	s := w.side(prov)
 	s.gen = &c16Gen{crashAfter: -1}
 	s.neg = nil
+	s.registered = false
 	tickets, err := s.db.Sidecars()
 	if err != nil {
 		panic(err)
@@ -854,6 +860,7 @@ func (w *c16World) startNegotiator(prov bool, first bool) {
 			CurrentState: state, ReceiverTicket: ticket, ProviderTicket: ticket,
 		}
 		s.neg = pool.NewSidecarNegotiator(cfg)
+		s.registered = true
 		atomic.StoreInt32(w.waiting[b01(prov)], 0)
 		if err := s.neg.Start(); err != nil {
 			panic(err)
@@ -973,7 +980,7 @@ func (w *c16World) stop(prov bool) {
 		s.neg.Stop()
 	}
 	if !prov {
-		w.pendingR = map[[32]byte]bool{}
+		w.pendingR = map[[32]byte]*sidecar.Ticket{}
 	}
 }
 
@@ -1018,6 +1025,135 @@ func (w *c16World) finalize(prov bool, st int) string {
 	case <-done:
 	case <-time.After(5 * time.Second):
 		return "HANG-fin"
+	}
+	w.settleOrNote(prov)
+	return w.takeEffs() + "|" + w.summary()
+}
+
+// finalizeTicket mirrors SidecarAcceptor.FinalizeTicket /
+// finalizeTicketIfExists: the negotiator registered for the ticket (if any) is
+// told and removed from the map.
+func (w *c16World) finalizeTicket(prov bool, st sidecar.State) {
+	s := w.side(prov)
+	if s.neg == nil || !s.registered {
+		return
+	}
+	s.registered = false
+	done := make(chan struct{})
+	go func() {
+		s.neg.TicketExecuted(st, false)
+		close(done)
+	}()
+	select {
+	case <-done:
+	case <-time.After(5 * time.Second):
+		w.effs = append(w.effs, "HANG")
+	}
+}
+
+// dbWrite is a store write done by the RPC server (not by the negotiator).
+func (w *c16World) dbWrite(prov bool, t *sidecar.Ticket) error {
+	s := w.side(prov)
+	err := s.db.UpdateSidecar(t)
+	if err == nil {
+		w.mu.Lock()
+		w.writes[s.name()] = append(w.writes[s.name()], uint8(t.State))
+		w.mu.Unlock()
+	}
+	return err
+}
+
+// setTicketStateForOrder mirrors rpcServer.setTicketStateForOrder.
+func (w *c16World) setTicketStateForOrder(prov bool, st sidecar.State, nonce order.Nonce) error {
+	s := w.side(prov)
+	tickets, err := s.db.Sidecars()
+	if err != nil {
+		return err
+	}
+	for _, ticket := range tickets {
+		if ticket.Order == nil || order.Nonce(ticket.Order.BidNonce) != nonce {
+			continue
+		}
+		ticket.State = st
+		if err := w.dbWrite(prov, ticket); err != nil {
+			return err
+		}
+		w.finalizeTicket(prov, ticket.State)
+	}
+	return nil
+}
+
+// cancelRPC mirrors rpcServer.CancelSidecar (incl. the sidecar part of
+// rpcServer.CancelOrder; the auctioneer call is assumed to succeed).
+func (w *c16World) cancelRPC(prov bool) string {
+	s := w.side(prov)
+	tickets, err := s.db.SidecarsByID(w.k.baseID)
+	if err != nil {
+		panic(err)
+	}
+	var ticket *sidecar.Ticket
+	for _, t := range tickets {
+		if t.State.IsTerminal() {
+			continue
+		}
+		ticket = t
+		break
+	}
+	if ticket == nil {
+		return "not-enabled"
+	}
+	if ticket.State >= sidecar.StateOrdered && ticket.Order != nil {
+		nonce := order.Nonce(ticket.Order.BidNonce)
+		o, err := s.db.GetOrder(nonce)
+		if err != nil {
+			return "not-enabled"
+		}
+		switch o.Details().State {
+		case order.StateCanceled:
+		case order.StateExecuted, order.StateExpired, order.StateFailed:
+			return "not-enabled"
+		default:
+			if err := s.db.UpdateOrder(nonce, order.StateModifier(order.StateCanceled)); err != nil {
+				panic(err)
+			}
+			if err := w.setTicketStateForOrder(prov, sidecar.StateCanceled, nonce); err != nil {
+				w.settleOrNote(prov)
+				return w.takeEffs() + "|" + w.summary()
+			}
+		}
+	}
+	ticket.State = sidecar.StateCanceled
+	w.finalizeTicket(prov, ticket.State)
+	_ = w.dbWrite(prov, ticket)
+	w.settleOrNote(prov)
+	return w.takeEffs() + "|" + w.summary()
+}
+
+// completeRPC mirrors what happens on a node when the batch containing the
+// sidecar channel is finalized: the provider's rpcServer marks the ticket of
+// the executed order completed (setTicketStateForOrder), the recipient's
+// SidecarAcceptor.matchFinalize marks the pending ticket completed; both then
+// tell the negotiator.
+func (w *c16World) completeRPC(prov bool) string {
+	s := w.side(prov)
+	pt := w.persisted(prov)
+	if pt == nil || pt.State.IsTerminal() {
+		return "not-enabled"
+	}
+	if prov {
+		if _, err := s.db.GetOrder(w.k.bidNonce); err != nil {
+			return "not-enabled"
+		}
+		_ = w.setTicketStateForOrder(true, sidecar.StateCompleted, w.k.bidNonce)
+	} else {
+		ticket, ok := w.pendingR[w.k.bidNonce]
+		if !ok {
+			return "not-enabled"
+		}
+		ticket.State = sidecar.StateCompleted
+		_ = w.dbWrite(false, ticket)
+		delete(w.pendingR, w.k.bidNonce)
+		w.finalizeTicket(false, ticket.State)
 	}
 	w.settleOrNote(prov)
 	return w.takeEffs() + "|" + w.summary()
@@ -1238,6 +1374,7 @@ type c16Result struct {
 	bad   string
 	hang  bool
 	final string
+	extra string // not in the summary: pending expectation, stored order
 }
 
 // runSchedule executes ops on a fresh pair of real negotiators.
@@ -1297,6 +1434,41 @@ func c16RunSchedule(r *Run, k *c16Keys, ops []string) c16Result {
 				o.markEnded(prov, op)
 			}
 			continue
+		case "cancel", "complete":
+			curBefore := -1
+			if w.alive(prov) {
+				curBefore = int(w.side(prov).neg.CurrentState())
+			}
+			if f[0] == "cancel" {
+				out = w.cancelRPC(prov)
+			} else {
+				out = w.completeRPC(prov)
+			}
+			emit(op, out)
+			if f[0] == "cancel" && out != "not-enabled" {
+				o.markEnded(prov, op)
+				r.Count("run/cancel-own")
+				// the other side must be told whenever one may be listening
+				if curBefore >= 0 && (!prov || curBefore >= int(sidecar.StateRegistered)) {
+					to := ":P:"
+					if prov {
+						to = ":R:"
+					}
+					told := false
+					for _, e := range strings.Split(strings.SplitN(out, "|", 2)[0], ",") {
+						if strings.Contains(e, ".snd"+to) && strings.HasSuffix(e, ":1") &&
+							strings.Split(strings.Split(e, ":")[2], ".")[1] == "6" {
+							told = true
+						}
+					}
+					if !told {
+						o.fail("%s canceled the ticket while its negotiator was running (state %d) but no "+
+							"cancel message was sent to the other side: the cancellation cannot end both (%q: %s)",
+							f[1], curBefore, op, out)
+					}
+				}
+			}
+			continue
 		case "race":
 			// race X a b st nCalls
 			var ord string
@@ -1322,6 +1494,7 @@ func c16RunSchedule(r *Run, k *c16Keys, ops []string) c16Result {
 	}
 	res.bad = o.bad
 	res.final = w.summary()
+	res.extra = fmt.Sprintf("pend=%d", len(w.pendingR))
 	return res
 }
 
@@ -1377,9 +1550,9 @@ func c16Step(w *c16World, prov bool, cur int, recvTok, provTok string, sc *c16Sc
 			}
 		}()
 		if prov {
-			out, err = neg.VerifStepProvider(context.Background(), pkt, k.newBid(), k.acct)
+			out, err = neg.VerifC16StepProvider(context.Background(), pkt, k.newBid(), k.acct)
 		} else {
-			out, err = neg.VerifStepRecipient(context.Background(), pkt)
+			out, err = neg.VerifC16StepRecipient(context.Background(), pkt)
 		}
 	}()
 	effs := w.takeEffs()
@@ -1399,7 +1572,7 @@ func c16Step(w *c16World, prov bool, cur int, recvTok, provTok string, sc *c16Sc
 	effs = strip(effs)
 	if err == nil && out.CurrentState == sidecar.StateCanceled {
 		// the clause spawned `go a.TicketExecuted(StateCanceled, true)`
-		st, other, ok := neg.VerifTakeFinalization(2 * time.Second)
+		st, other, ok := neg.VerifC16TakeFinalization(2 * time.Second)
 		if ok && st == sidecar.StateCanceled && other {
 			if effs == "-" {
 				effs = "spawn"
@@ -1544,39 +1717,85 @@ func c16ReplayStep(r *Run, k *c16Keys, op string) {
 
 // ---------------------------------------------------------------- schedule generation
 
-// c16Explore enumerates schedules depth-first on the REAL system: at each
-// node every enabled delivery (distinct tickets only), restart, crash point
-// and cancellation is tried.
-func c16Explore(r *Run, k *c16Keys, depth int, budget *int, prefix []string, run func(ops []string) c16Result) {
-	res := run(prefix)
-	if *budget <= 0 || len(prefix) >= depth || res.hang || res.bad != "" {
-		return
+// c16Explore enumerates schedules breadth-first on the REAL system: from every
+// distinct observable state every enabled delivery (one per distinct ticket,
+// duplicates included), every crash point inside the handler of that delivery,
+// restart, cancellation and completion of either side is tried; states already
+// seen (negotiator states, persisted tickets, tickets in flight, bids) are not
+// expanded again.
+func c16Explore(r *Run, k *c16Keys, maxDepth int, budget int, run func(ops []string) c16Result) {
+	type node struct {
+		ops []string
+		res c16Result
 	}
-	// what can be delivered now: replay-derived message lists
-	nP, nR := c16CountMsgs(res)
-	var next []string
-	for i := 0; i < nP; i++ {
-		next = append(next, fmt.Sprintf("dlv P %d", i))
-	}
-	for i := 0; i < nR; i++ {
-		next = append(next, fmt.Sprintf("dlv R %d", i))
-	}
-	next = append(next, "restart P", "restart R", "fin P 6", "fin R 6")
-	if len(prefix) < depth-1 {
-		for i := 0; i < nP; i++ {
-			next = append(next, fmt.Sprintf("crash P %d %d", i, r.Rng.Intn(4)))
+	seen := map[string]bool{}
+	root := run(nil)
+	seen[c16StateKey(root)] = true
+	frontier := []node{{nil, root}}
+	for depth := 1; depth <= maxDepth && len(frontier) > 0 && budget > 0; depth++ {
+		var next []node
+		for _, n := range frontier {
+			if budget <= 0 {
+				break
+			}
+			try := func(op string) c16Result {
+				budget--
+				ops := append(append([]string{}, n.ops...), op)
+				res := run(ops)
+				if key := c16StateKey(res); !seen[key] && !res.hang && res.bad == "" {
+					seen[key] = true
+					next = append(next, node{ops, res})
+				}
+				return res
+			}
+			toP, toR := c16Sent(n.res)
+			for _, dir := range []struct {
+				side string
+				ms   []string
+			}{{"P", toP}, {"R", toR}} {
+				done := map[string]bool{}
+				for i, tok := range dir.ms {
+					if done[tok] || budget <= 0 {
+						continue
+					}
+					done[tok] = true
+					res := try(fmt.Sprintf("dlv %s %d", dir.side, i))
+					last := res.lines[len(res.lines)-1][1]
+					calls := 0
+					if es := strings.SplitN(last, "|", 2)[0]; es != "-" && es != "not-enabled" {
+						calls = len(strings.Split(es, ","))
+					}
+					for kk := 0; kk < calls && budget > 0; kk++ {
+						try(fmt.Sprintf("crash %s %d %d", dir.side, i, kk))
+					}
+				}
+			}
+			for _, op := range []string{"restart P", "restart R", "cancel P", "cancel R", "complete P", "complete R"} {
+				if budget > 0 {
+					try(op)
+				}
+			}
 		}
-		for i := 0; i < nR; i++ {
-			next = append(next, fmt.Sprintf("crash R %d %d", i, r.Rng.Intn(2)))
-		}
+		r.Hist[fmt.Sprintf("explore/depth%d-states", depth)] += len(next)
+		frontier = next
 	}
-	for _, op := range next {
-		if *budget <= 0 {
-			return
+}
+
+// c16StateKey identifies the observable state after a run.
+func c16StateKey(res c16Result) string {
+	toP, toR := c16Sent(res)
+	set := func(xs []string) string {
+		m := map[string]bool{}
+		var u []string
+		for _, x := range xs {
+			if !m[x] {
+				m[x] = true
+				u = append(u, x)
+			}
 		}
-		*budget--
-		c16Explore(r, k, depth, budget, append(append([]string{}, prefix...), op), run)
+		return strings.Join(u, ",")
 	}
+	return res.final + "|" + set(toP) + "|" + set(toR) + "|" + res.extra
 }
 
 // c16Sent lists the tokens of the tickets sent to each side so far (from
@@ -1622,9 +1841,9 @@ func c16RandomSchedule(r *Run, length int, noRestart bool) []string {
 		case x < 85:
 			ops = append(ops, fmt.Sprintf("crash %s %d %d", side, idx, r.Rng.Intn(4)))
 		case x < 90:
-			ops = append(ops, fmt.Sprintf("fin %s 6", side))
+			ops = append(ops, "cancel "+side)
 		case x < 93:
-			ops = append(ops, fmt.Sprintf("fin %s 5", side))
+			ops = append(ops, "complete "+side)
 		default:
 			ops = append(ops, "restart "+side)
 		}
@@ -1734,17 +1953,17 @@ func runC16(r *Run) {
 	r.Hist["ms/steps"] += int(time.Since(t0).Milliseconds())
 
 	// (b) exhaustive shallow schedules + random deep ones
-	depth := 4
-	budget := r.N
+	depth := 5
+	budget := r.N * 3
 	if r.Tier == "thorough" {
-		depth = 6
+		depth = 8
 	}
 	if r.Search {
-		depth = 3
-		budget = r.N / 4
+		depth = 4
+		budget = r.N * 2
 	}
-	c16Explore(r, k, depth, &budget, nil, runRec("enumerated"))
-	nRand := r.N / 2
+	c16Explore(r, k, depth, budget, runRec("enumerated"))
+	nRand := r.N / 4
 	for c := 0; c < nRand; c++ {
 		ops := c16RandomSchedule(r, 4+r.Rng.Intn(12), false)
 		if c%25 == 0 {
@@ -1759,12 +1978,20 @@ func runC16(r *Run) {
 		{"crash P 0 2", "dlv P 0"},
 		{"crash P 0 3", "dlv P 0", "restart R", "dlv P 1"},
 		{"crash P 0 2", "restart R", "dlv P 1", "dlv P 0"},
-		{"dlv P 0", "dlv R 0", "fin P 6", "dlv R 1"},
-		{"dlv P 0", "fin R 6", "dlv P 1"},
-		{"dlv P 0", "dlv R 0", "fin R 6", "dlv P 1", "restart P"},
-		{"restart P", "dlv R 0", "dlv P 0", "dlv P 1", "fin P 6", "dlv R 2", "dlv R 1"},
+		{"dlv P 0", "dlv R 0", "cancel P", "dlv R 1"},
+		{"dlv P 0", "cancel R", "dlv P 1"},
+		{"dlv P 0", "dlv R 0", "complete P", "complete R", "restart P", "restart R"},
+		{"restart P", "dlv R 0", "dlv P 0", "dlv P 1", "cancel P", "dlv R 2", "dlv R 1"},
 	}
-	for c := 0; c < 14; c++ {
+	// a cancellation by either side at every point the provider can be
+	// resumed from (crash after k driver/mailbox calls of its first handler)
+	for kk := 0; kk <= 4; kk++ {
+		directed = append(directed,
+			[]string{fmt.Sprintf("crash P 0 %d", kk), "cancel R", "dlv P 1", "dlv P 2"},
+			[]string{fmt.Sprintf("crash P 0 %d", kk), "cancel P", "dlv R 0", "dlv R 1", "dlv R 2"},
+			[]string{fmt.Sprintf("crash P 0 %d", kk), "dlv R 0", "complete P", "complete R"})
+	}
+	for c := 0; c < len(directed)+6; c++ {
 		ops := append([]string{}, directed[c%len(directed)]...)
 		if c >= len(directed) {
 			ops = append(ops, c16RandomSchedule(r, 2, false)...)
